@@ -648,7 +648,7 @@ def run(chk):
 						"polluter": rng.choice([None, None, "empty-peek", "zero-col-override", "table-override", "vector-long", "failing"])}, "vector-truth")
 	# ---- truthfulness: tables
 	for limit in limits:
-		for override in (None, None, 4, 8, 5):
+		for override in (None, None, 4, 8, 5, 0, 1):
 			k = max(override if override is not None else (limit if limit is not None else 12), 0)
 			for ncols in (1, 2, 3, 5, 9, 10, 11, 12):
 				for nrows in sorted({0, 1, max(0, k - 1), k, k + 1, k + 3}):
